@@ -49,7 +49,8 @@ ASSUMPTIONS = ['expected EUI-64 address = (address & prefix mask) | ((mac[0:3] ^
                'params() is compared with the generator\'s own decoded pairs where no pair has a blank value '
                '(parse_qsl drops those: DONT-CARE) and the query is not polluted by a kept fragment',
                'only str URLs; bytes URLs are outside the quantifier']
-SHARDS = {'quick': 1, 'thorough': 16}
+INTERPRETER_FLAGS = [[], ['-O'], [], ['-bb']]
+SHARDS = {'quick': 4, 'thorough': 16}
 
 M64 = (1 << 64) - 1
 M128 = (1 << 128) - 1
